@@ -36,7 +36,7 @@ type scenario struct {
 	Ops     [][]int `json:"ops"` // per worker: operation codes (meaning depends on the program)
 }
 
-var programs = []string{"buffer", "deadline", "dpipe", "vnet", "build", "tbf", "udp", "delayfilter", "filters"}
+var programs = []string{"buffer", "deadline", "dpipe", "vnet", "build", "tbf", "udp", "delayfilter", "filters", "udpwrite"}
 
 func gen(r *harn.Rng, tier string) interface{} {
 	sc := &scenario{Program: programs[r.Intn(len(programs))]}
@@ -152,9 +152,39 @@ func run(env *simrt.Env, sci interface{}) {
 		_ = a.Close()
 		_ = b.Close()
 	case "vnet":
-		wan, err := vnet.NewRouter(&vnet.RouterConfig{CIDR: "10.0.0.0/24", LoggerFactory: quietLF()})
+		jit := time.Duration(0)
+		if len(sc.Ops[0])%2 == 0 {
+			jit = 50 * time.Microsecond // both routers draw jitter: their forwarding goroutines run side by side
+		}
+		wan, err := vnet.NewRouter(&vnet.RouterConfig{CIDR: "10.0.0.0/24", MaxJitter: jit, LoggerFactory: quietLF()})
 		if err != nil {
 			env.Infra("NewRouter: %v", err)
+			return
+		}
+		// a NAT'd child router with one inside host: outbound translation runs on the child's
+		// forwarding goroutine, inbound translation on the parent's
+		lan, err := vnet.NewRouter(&vnet.RouterConfig{CIDR: "192.168.0.0/24", StaticIPs: []string{"10.0.0.3"}, MaxJitter: jit, LoggerFactory: quietLF(),
+			NATType: &vnet.NATType{MappingBehavior: vnet.EndpointIndependent, FilteringBehavior: vnet.EndpointAddrPortDependent, MappingLifeTime: time.Hour}})
+		if err != nil {
+			env.Infra("NewRouter lan: %v", err)
+			return
+		}
+		if err := wan.AddRouter(lan); err != nil {
+			env.Infra("AddRouter: %v", err)
+			return
+		}
+		inNet, err := vnet.NewNet(&vnet.NetConfig{StaticIPs: []string{"192.168.0.1"}})
+		if err != nil {
+			env.Infra("NewNet: %v", err)
+			return
+		}
+		if err := lan.AddNet(inNet); err != nil {
+			env.Infra("AddNet: %v", err)
+			return
+		}
+		inside, err := inNet.ListenUDP("udp", &net.UDPAddr{IP: net.ParseIP("192.168.0.1"), Port: 4000})
+		if err != nil {
+			env.Infra("ListenUDP inside: %v", err)
 			return
 		}
 		mk := func(ip string) (*vnet.Net, net.PacketConn) {
@@ -176,16 +206,35 @@ func run(env *simrt.Env, sci interface{}) {
 		}
 		n1, c1 := mk("10.0.0.1")
 		_, c2 := mk("10.0.0.2")
-		if c1 == nil || c2 == nil {
+		_, c3 := mk("10.0.0.4")
+		if c1 == nil || c2 == nil || c3 == nil {
 			return
 		}
 		_ = wan.Start()
 		conns := []net.PacketConn{c1, c2}
+		// c3 echoes what it receives to the (translated) source: inbound traffic through the NAT
+		echo := env.Go("echo", func() {
+			buf := make([]byte, 256)
+			for {
+				n, from, err := c3.ReadFrom(buf)
+				if err != nil {
+					return
+				}
+				_, _ = c3.WriteTo(buf[:n], from)
+			}
+		})
+		defer func() { env.Join(echo) }()
 		spawn(func(w int, ops []int) {
 			buf := make([]byte, 256)
 			for _, o := range ops {
 				c := conns[o%2]
 				peer := &net.UDPAddr{IP: net.ParseIP(fmt.Sprintf("10.0.0.%d", 2-o%2)), Port: 4000}
+				if o%5 == 0 {
+					// the inside host talks to changing remote ports (new permissions) and to the echo
+					_, _ = inside.WriteTo(make([]byte, 1+o%50), &net.UDPAddr{IP: net.ParseIP("10.0.0.4"), Port: 4000})
+					_, _ = inside.WriteTo(make([]byte, 1+o%50), &net.UDPAddr{IP: net.ParseIP("10.0.0.1"), Port: 4000 + o%7})
+					continue
+				}
 				switch (o / 2) % 9 {
 				case 0, 1, 2:
 					_, _ = c.WriteTo(make([]byte, 1+o%100), peer)
@@ -215,8 +264,11 @@ func run(env *simrt.Env, sci interface{}) {
 			}
 		})
 		env.Join(hs...)
+		env.Sleep(time.Millisecond) // echoes in flight
 		_ = c1.Close()
 		_ = c2.Close()
+		_ = c3.Close()
+		_ = inside.Close()
 		_ = wan.Stop()
 	case "build":
 		// independent virtual networks built in parallel
@@ -320,6 +372,47 @@ func run(env *simrt.Env, sci interface{}) {
 		env.Idle(time.Second)
 		cancel()
 		env.Join(runner)
+	case "udpwrite":
+		// batch mode, small batches, every client writes on the accepted connections: the batch
+		// queue, its flush and the ticker-driven flush are shared by all writers
+		simnet.Reset(env.Stamp)
+		laddr := &net.UDPAddr{IP: net.IPv4(127, 0, 0, 1), Port: 7000}
+		lcfg := &udp.ListenConfig{Backlog: 4, Batch: udp.BatchIOConfig{Enable: true, ReadBatchSize: 2, WriteBatchSize: 2, WriteBatchInterval: 100 * time.Microsecond}}
+		l, err := lcfg.Listen("udp", laddr)
+		if err != nil {
+			env.Infra("Listen: %v", err)
+			return
+		}
+		var peers []*simnet.UDPConn
+		var conns []net.Conn
+		for i := 0; i < 2; i++ {
+			p, _ := simnet.ListenUDP("udp", &net.UDPAddr{IP: net.IPv4(127, 0, 0, 1), Port: 7001 + i})
+			peers = append(peers, p)
+			_, _ = p.WriteTo([]byte{1, 2, 3}, laddr)
+			c, err := l.Accept()
+			if err != nil {
+				env.Infra("Accept: %v", err)
+				return
+			}
+			conns = append(conns, c)
+		}
+		spawn(func(w int, ops []int) {
+			for _, o := range ops {
+				_, _ = conns[o%2].Write(make([]byte, 1+o%40))
+				if o%4 == 0 {
+					env.Sleep(time.Duration(o%120) * time.Microsecond)
+				}
+			}
+		})
+		env.Join(hs...)
+		env.Sleep(time.Millisecond)
+		for _, c := range conns {
+			_ = c.Close()
+		}
+		_ = l.Close()
+		for _, p := range peers {
+			_ = p.Close()
+		}
 	case "udp":
 		simnet.Reset(env.Stamp)
 		laddr := &net.UDPAddr{IP: net.IPv4(127, 0, 0, 1), Port: 7000}
@@ -362,7 +455,11 @@ func run(env *simrt.Env, sci interface{}) {
 		spawn(func(w int, ops []int) {
 			buf := make([]byte, 256)
 			for _, o := range ops {
-				switch o % 7 {
+				k := o % 7
+				if lcfg.Batch.Enable && k == 2 {
+					k = 4 // batch mode: more writers on the connections (the batch queue is shared by all of them)
+				}
+				switch k {
 				case 0, 1, 2:
 					_, _ = peers[o%2].WriteTo(make([]byte, 1+o%100), laddr)
 				case 3:
@@ -451,6 +548,9 @@ func parseReports(text string) [][]string {
 					if strings.Contains(fn, "/zzverif/simrt.(*Rand).") || strings.Contains(fn, "/zzverif/simrt.(*Source).") {
 						continue // the stand-in for *rand.Rand: the access belongs to its caller, as with math/rand itself
 					}
+					if strings.Contains(fn, "/zzverif/simnet.") {
+						continue // the stub kernel touching buffers it was handed (as sendmsg/recvmsg would): attributed to the caller
+					}
 					owners = append(owners, fn)
 					found = true
 				}
@@ -532,5 +632,12 @@ func TestSim(t *testing.T) {
 	harn.Main(t, &harn.Spec{
 		ID: "C19", Gen: gen, New: func() interface{} { return &scenario{} }, Run: run, Post: post, Shrink: shrinkSc,
 		LeakOK: true, NoShrink: true,
+		Knobs: func(r *harn.Rng, sci interface{}, cfg *simrt.Config) {
+			// a stall fault lets up to 40 s pass: with a 50 us flush ticker that is close to a
+			// million timer firings of real work per stall
+			if sci.(*scenario).Program == "udpwrite" {
+				cfg.StallP = 0
+			}
+		},
 	})
 }
